@@ -1023,7 +1023,7 @@ class Eval:
             import datetime
             lr = {
                 'valid': True, 'run': runid, 'task': rec['task'],
-                'log': [f'marker {runid} begin'] + [f'marker {runid} step {k}' for k in range(nlog)] + ([f'marker {runid} helper thread'] if V.helper_thread_logs(it.slug) else []) + ([f'marker {runid} gen'] if it.kind in ('gen', 'genlazy') and not self.j.proc.get('tree') else []),   # (release 1.4.0 detached the log before a generator body ran: F19)
+                'log': [f'marker {runid} begin'] + [f'marker {runid} step {k}' for k in range(nlog)] + ([f"marker {runid} progress {{'done': 0}}"] if not V.helper_thread_logs(it.slug + '/lazy') else []) + ([f'marker {runid} helper thread'] if V.helper_thread_logs(it.slug) else []) + ([f'marker {runid} gen'] if it.kind in ('gen', 'genlazy') and not self.j.proc.get('tree') else []),   # (release 1.4.0 detached the log before a generator body ran: F19)
                 'records': [{'marker': runid, 'n': 0}] + [{'marker': runid, 'n': k + 1} for k in range(nlog)] + ([{'marker': runid, 'n': 'gen'}] if it.kind in ('gen', 'genlazy') else []),
                 'params_at_run': dict(it.all_params),
                 'input_keys': sorted([t.slug, self.j.key_of_D.get(t.D)] for t in it.inputs.values()) if chain['pmode'] else None,
